@@ -92,6 +92,17 @@ def operand_from_model(ir_data, name, shape, model):
     return mk_integer_expr(ir_data, lo, hi, M, mv), g("val", mv)
 
 
+def near_operand(ir_data, rng, other):
+    """An operand whose bounds lie within a few units of `other`'s (finite) bounds: near-equal large bounds are where
+    comparisons done in floating point, or through string forms, go wrong."""
+    t = other.type.integer
+    lo, hi = int(t.minimum_value), int(t.maximum_value)
+    lo2 = lo + rng.choice([-2, -1, 0, 1, 2])
+    hi2 = max(lo2, hi + rng.choice([-2, -1, 0, 1, 2]))
+    v = rng.choice([lo2, hi2, rng.randint(lo2, hi2)])
+    return mk_integer_expr(ir_data, lo2, hi2, 1, 0), v, "fin[n,n]"
+
+
 def random_operand(ir_data, rng, shape=None):
     shape = shape or rng.choice(["const", "fin[n,n]", "fin[-inf,n]", "fin[n,inf]", "fin[-inf,inf]"])
     big = rng.choice([3, 20, 300, 2 ** 33, 2 ** 70])
@@ -340,12 +351,14 @@ def cross_check(seed, n):
             elif fam == "choice":
                 cv = rng.choice([None, True, False])
                 cond = ir_data.Expression(type=ir_data.ExpressionType(boolean=ir_data.BooleanType(value=cv)))
-                t, tv, _ = random_operand(ir_data, rng)
-                f, fv, _ = random_operand(ir_data, rng)
+                t, tv, tshape = random_operand(ir_data, rng)
+                f, fv, _ = near_operand(ir_data, rng, t) if tshape == "fin[n,n]" and rng.random() < 0.5 else random_operand(ir_data, rng)
                 taken = cv if cv is not None else rng.choice([True, False])
                 op, args, value = FM.CHOICE, [cond, t, f], (tv if taken else fv)
             elif fam == "maximum":
                 ops = [random_operand(ir_data, rng) for _ in range(rng.randint(1, 4))]
+                if ops[0][2] == "fin[n,n]" and rng.random() < 0.5:
+                    ops = [ops[0]] + [near_operand(ir_data, rng, ops[0][0]) for _ in ops[1:]] + [near_operand(ir_data, rng, ops[0][0])]
                 op, args, value = FM.MAXIMUM, [o[0] for o in ops], max(o[1] for o in ops)
             else:
                 a, av, shape = random_operand(ir_data, rng, rng.choice(["const", "fin[n,n]"]))
